@@ -13,22 +13,24 @@ NOTE_COMMON = ("Trusted base: the harness (scripted children, wake-only executor
                "no poll of a combinator after its own final result; after a caught panic only ownership is judged. Generated search never establishes absence. Wake-ups from "
                "other threads: scripted schedules fire wakers between polls, inside a child's poll and from joined helper threads; truly simultaneous wake-ups are explored by the "
                "storm phase of the std configurations only (helper threads invoke the wakers while the task thread polls, mutates a group or drops the combinator; 10^5 cases per "
-               "configuration in the quick tier; interleavings chosen by the OS scheduler, not enumerated; C16 and C17 have no storm phase). A reproduced deadlock counts as a violation for C01.")
+               "configuration in the quick tier; interleavings chosen by the OS scheduler, not enumerated; C16 and C17 have no storm phase). A reproduced deadlock counts as a violation for C01. "
+               "Saved inputs (corpus/<PROP>.comb.txt: minimised inputs that exposed seeded changes in sensitivity runs) are evaluated before the generated cases in every tier; "
+               "the thorough tier adds a bounded libFuzzer campaign (ASan, std) over the same decoder and oracles, started from those saved inputs.")
 
 NOTE_GROUP = ("Trusted base: the harness (scripted members, wake-only executor, reference model of the live members, trace oracles) and proptest's RNG "
               "seeded from VERIF_SEED. Bounds: histories <= 40 operations (quick) / 120 (thorough) plus bursts of up to 70 (rarely 1100) inserts, initial capacity <= 128, reserve <= 130, "
               "groups collected from up to 128 members, extend / from_iter from iterators with exact, absent and under-reporting size hints and from an iterator that wakes parked members, "
               "member scripts <= 6 steps, members may be nested combinators. A storm phase (std configurations) runs 10^5 histories with the wakers invoked by helper threads, concurrently "
               "with the operations that follow; a reproduced deadlock of a group operation counts as a violation. Generated search never establishes absence. Shared-oracle violations count only when the "
-              "group itself is to blame (DESIGN.md section 4, Attribution).")
+              "group itself is to blame (DESIGN.md section 4, Attribution). Saved inputs (corpus/<PROP>.comb.txt) are evaluated before the generated histories; the thorough tier adds a bounded libFuzzer campaign started from them.")
 NOTE_CO = ("Trusted base: the harness (scripted source, one scripted future per closure invocation, wake-only executor, trace oracles) and proptest's RNG seeded from "
            "VERIF_SEED. Bounds: source length <= 12 (now and then 33 / 70 / 300 / 1100, limits up to 1025; endless sources behind take(k)), adapter stacks of depth <= 3, closure-future scripts <= 4 steps, "
            "schedules <= 30 actions, size hints none / exact / inexact / with a huge upper bound, a mass-completion template (>= 32 closure futures completing in one progress call), std and alloc-only; no storm phase. "
            "An error counts as observed by the consumer at the moment the failing future answers (futures only answer when the consumer polls them). "
-           "Generated search never establishes absence.")
+           "Generated search never establishes absence. Saved inputs (corpus/<PROP>.co.txt) are evaluated before the generated cases; the thorough tier adds a bounded libFuzzer campaign started from them.")
 NOTE_AUTOTRAITS = ("Trusted base: rustc's trait solver and the generator of obligation programs. Each accepted obligation has type parameters as leaves, so it holds for every "
                    "child type with the stated bounds; sampling is only over constructors, containers, arities (arrays 1,2,3,5,12; tuples 0..12) and nestings (depth <= 3). The Sync "
-                   "obligations give children and outputs Send + Sync; tuple race_ok additionally needs E: Debug (a precondition of the API). Closures of the concurrent-stream "
+                   "obligations bound children and outputs by Sync alone, the Send obligations by Send alone; tuple race_ok additionally needs E: Debug (a precondition of the API). Closures of the concurrent-stream "
                    "functions are Send but not Sync. A negative control must be rejected, otherwise the run exits 2.")
 NOTES = {"group": NOTE_GROUP, "co": NOTE_CO, "autotraits": NOTE_AUTOTRAITS}
 
@@ -81,7 +83,7 @@ CHECKS["C15"] = ("co", "§5 C15",
     "property-based testing: generated adapter stacks and completion orders vs. reference semantics (multiset, source index, exact prefix) read off the closure-invocation log")
 
 CHECKS["C18"] = ("autotraits", "§5 C18",
-    "generated programs type-checked by rustc against /repo (std and alloc-only): one generic obligation per type expression over the public constructors - every combinator x {array N in 1,2,3,5,12; Vec; tuple arity 0..12}, FutureGroup, StreamGroup, both Keyed views, both WaitUntil, in projection form and by their public names (stage A, exhaustive at depth 1), random nestings of depth 2-3 (stage B) - asserting Send under Send leaves and Sync under Send+Sync leaves, the leaves being type parameters so that each accepted obligation holds for every child type; plus one generic function per (source, adapter stack of depth <= 3, terminal) asserting that the opaque for_each / try_for_each / collect future is Send; a rejected obligation is shrunk structurally and the minimal program is the replay; a negative control (an Rc leaf) must be rejected",
+    "generated programs type-checked by rustc against /repo (std and alloc-only): one generic obligation per type expression over the public constructors - every combinator x {array N in 1,2,3,5,12; Vec; tuple arity 0..12}, FutureGroup, StreamGroup, both Keyed views, both WaitUntil, in projection form and by their public names (stage A, exhaustive at depth 1), random nestings of depth 2-3 (stage B) - asserting Send under Send-only leaves and Sync under Sync-only leaves, the leaves being type parameters so that each accepted obligation holds for every child type; plus one generic function per (source, adapter stack of depth <= 3, terminal) asserting that the opaque for_each / try_for_each / collect future is Send; a rejected obligation is shrunk structurally and the minimal program is the replay; a negative control (an Rc leaf) must be rejected",
     "property-based testing over generated programs: random and exhaustive type expressions, oracle = the obligation must type-check (rustc trait solver), structural shrinking, negative control")
 
 NA = {
@@ -131,7 +133,7 @@ def main():
         ],
         "checks": checks,
         "not_applicable": [{"property_id": k, "reason": v} for k, v in sorted(NA.items()) if k not in CHECKS],
-        "notes": "All checks: exit 0 held / 1 violation / 2 infrastructure (build failure, hang watchdog). VERIF_SEED selects the proptest seed; each run is a function of the tree and the seed.",
+        "notes": "All checks: exit 0 held / 1 violation / 2 infrastructure (build failure, hang watchdog). VERIF_SEED selects the proptest seed; each run is a function of the tree, the seed and the committed corpus/ (the storm phase's thread interleavings excepted). All twenty properties are claimed; not_applicable is empty (DESIGN.md section 6).",
     }
     with open(os.path.join(ROOT, "MANIFEST.json"), "w") as f:
         json.dump(m, f, indent=1)
